@@ -9,7 +9,9 @@ for d in sorted(glob.glob('seeded/*/')):
     conf = m.get('confirmed_by_integrator', '')
     missed = 'MISSED' in conf
     caught_after = '| after' in conf or 'caught after' in conf or 'caught by' in conf
-    if 'NOT A VIOLATION' in conf:
+    if 'NOT COVERED' in conf:
+        status = 'not covered (outside the stated domain / documented assumption)'
+    elif 'NOT A VIOLATION' in conf:
         status = 'not a violation under the documented accepted set'
     else:
       status = 'caught' if not missed else ('missed at first, caught after strengthening' if caught_after else 'missed at first')
